@@ -89,6 +89,21 @@ LoadBySets ==
 
 StayZero == /\ cph = "zero" /\ cph' = "obj" /\ UNCHANGED <<cver, cobj, cn>>
 
+(* Object!SetB / GetB are ObjectCore!CSet / CGet with the real lookups substituted: the algebra proved   *)
+(* for ObjectCore by TLAPS (proofs/ObjectCoreProofs.tla: frame, commutation, last write wins) is the     *)
+(* algebra of the operators every check uses; asserted on every Set / Get transition explored            *)
+Core(ver) == INSTANCE ObjectCore WITH Metrics <- MetricSet(ver), None <- NoMetric,
+                                      MetricOfF <- LAMBDA a : MetricOf(ver, a),
+                                      ValueOfF <- LAMBDA m, v : ValueOf(ver, m, v)
+CoreIsObjectSet(a, v) ==
+  LET r == SetB(cver, cobj, a, v)
+      c == Core(cver)!CSet(cobj, a, v)
+  IN  r.ok = c.ok /\ r.obj = c.obj /\ Core(cver)!CFrame(cobj, a, v)
+CoreIsObjectGet(a) ==
+  LET r == GetB(cver, cobj, a)
+      c == Core(cver)!CGet(cobj, a)
+  IN  r.ok = c.ok /\ r.val = c.val
+
 SetCall(a, v) ==
   LET r == SetB(cver, cobj, a, v)
   IN  /\ cobj' = r.obj
@@ -97,6 +112,7 @@ SetCall(a, v) ==
       /\ EmitEdge([ver |-> cver, f |-> ObjSeq(cver, cobj), op |-> "set", a |-> a, v |-> v,
                    ok |-> r.ok, err |-> r.err, t |-> ObjSeq(cver, r.obj)])
       /\ Assert(FrameOK(cver, cobj, a, v), "frame condition of Set")
+      /\ Assert(CoreIsObjectSet(a, v), "Object!SetB is not ObjectCore!CSet")
 
 SetJunk == /\ cph = "obj" /\ cn = 0
            /\ \E p \in WidePairs(cver) : SetCall(p[1], p[2])
@@ -110,6 +126,7 @@ GetCall ==
        LET r == GetB(cver, cobj, a)
        IN  /\ EmitEdge([ver |-> cver, f |-> ObjSeq(cver, cobj), op |-> "get", a |-> a,
                         ok |-> r.ok, err |-> r.err, val |-> r.val])
+           /\ Assert(CoreIsObjectGet(a), "Object!GetB is not ObjectCore!CGet")
            /\ UNCHANGED vars
 
 Next == LoadByParse \/ LoadBySets \/ StayZero \/ SetJunk \/ SetLegal \/ GetCall
